@@ -205,6 +205,16 @@ class Chan:
         await self.settle()
         self.cred = cred
 
+class Fwd:
+    def post(self, url, *, form=None, raw=None):
+        return (url, form, raw)
+
+    def locked(self, url, **kwargs):
+        return self.post(url, **kwargs)
+
+    def call(self, body):
+        return self.locked("u", form=body)
+
 class Tmpl:
     def __init__(self, a, b):
         self.a = a
@@ -388,6 +398,9 @@ def main() -> int:
             check(f"atomic:{fn}", len(sec) == 1 and all(len(v) == want for v in sec.values()))
         sec = sections(prog, prog.func(q + "Chan.no_handshake"), None, lambda n: stores_self_attr(n, ("cred",)), from_entry=True)
         check("atomic:from-entry", len(sec) == 1 and all(len(v) == 1 for v in sec.values()))
+        # value-flow: surplus keywords of a call are bound to the callee's **kwargs and expanded again where it forwards them
+        fw = strip(summarize(prog, prog.func(q + "Fwd.call")).return_term())
+        check("terms:kwargs-forwarding", fw[0] == "tuple" and len(fw[1]) == 3 and strip(fw[1][1]) == ("param", "body") and strip(fw[1][2]) == ("const", None))
         # desugar: a read-only object built on first use is the object built where it is used; one that is handed a method call is left alone
         lz = ast.unparse(prog.func(q + "lazy").node)
         lm = ast.unparse(prog.func(q + "lazy_mutated").node)
